@@ -480,16 +480,36 @@ def check_retrieval(ctx, rule):
 
 FORBIDDEN_DEQUE = {'appendleft', 'pop', 'insert', 'rotate', 'reverse', 'clear', 'sort', 'remove', 'extendleft',
                    '__setitem__', '__delitem__'}
-QUEUE_ATTRS = {'_messages', 'messages'}
+
+
+def _self_stores(fn):
+    """Attribute names stored on self in a function, with the stored value (None for augmented / tuple targets)."""
+    out = []
+    for t, st in astq.stores_in(fn.node):
+        if isinstance(t, ast.Attribute) and isinstance(t.value, ast.Name) and t.value.id == 'self':
+            out.append((t.attr, st.value if isinstance(st, ast.Assign) and len(st.targets) == 1 and st.targets[0] is t else None, st))
+    return out
+
+
+def queue_attrs(ctx):
+    """Names of the attributes that hold message queues: whatever a constructor in mido/ binds to a deque(...) (names are
+    taken from the code, so a consistent rename of a private attribute changes nothing), plus the public Parser.messages."""
+    names = {'messages'}
+    for fn in ctx.p.all_functions():
+        for attr, val, _ in _self_stores(fn):
+            if isinstance(val, ast.Call) and unparse(val.func).split('.')[-1] == 'deque':
+                names.add(attr)
+    return names
 
 
 def check_fifo_scan(ctx, rule):
     """Only append / extend / popleft on the message queues, anywhere in mido/."""
     n = 0
+    qa = queue_attrs(ctx)
     for fn in ctx.p.all_functions():
         for node in astq.walk_shallow(fn.node):
             if isinstance(node, ast.Call) and isinstance(node.func, ast.Attribute) and isinstance(node.func.value, ast.Attribute) \
-                    and node.func.value.attr in QUEUE_ATTRS:
+                    and node.func.value.attr in qa:
                 n += 1
                 ctx.call_sites += 1
                 m = node.func.attr
@@ -503,14 +523,13 @@ def check_fifo_scan(ctx, rule):
                 tg = node.targets if isinstance(node, (ast.Assign, ast.Delete)) else [node.target]
                 for t in tg:
                     for x in astq._flatten(t):
-                        if isinstance(x, ast.Subscript) and isinstance(x.value, ast.Attribute) and x.value.attr in QUEUE_ATTRS:
+                        if isinstance(x, ast.Subscript) and isinstance(x.value, ast.Attribute) and x.value.attr in qa:
                             ctx.fail(rule, f'{fn.qname.split("::")[1]}.subscript', ctx.where(fn, node),
                                      f'{unparse(node)[:70]} rewrites the message queue in place',
                                      construct=f'{fn.qname}::{x.value.attr}.subscript')
-    ctx.floor(rule + '-scan', n, 10)
-
-
-TOK_FIELDS = {'_status', '_bytes', '_len'}
+    # a sweep: it may legitimately find little (queues used through local aliases); the FIFO behaviour itself is decided by the
+    # interpreted histories (parser_semantics, tokenizer_semantics, R05.6)
+    ctx.floor(rule + '-queues', len(qa), 2)
 
 
 def _closure(ctx, cls, start):
@@ -534,29 +553,58 @@ def _closure(ctx, cls, start):
 
 def check_single_writers(ctx, rule):
     """Tokenizer state is written only by __init__ and by the byte handlers (methods reachable from feed_byte, but not
-    feed / retrieval methods); parser fields only in __init__; nobody outside the class touches them."""
+    feed / retrieval methods); parser fields only in __init__; nobody outside the class touches them.  The field names are
+    read from the constructors (what Tokenizer.__init__ / Parser.__init__ store on self), not fixed here."""
     tcls = ctx.p.cls(TOK, 'Tokenizer')
-    handlers = _closure(ctx, tcls, 'feed_byte') - {'feed', '__iter__', '__len__', '__init__'}
-    allowed_tok = {f'mido/tokenizer.py::Tokenizer.{h}' for h in handlers} | {'mido/tokenizer.py::Tokenizer.__init__'}
+    pcls = ctx.p.cls(PAR, 'Parser')
+    tinit = tcls.methods.get('__init__')
+    pinit = pcls.methods.get('__init__')
+    if tinit is None or pinit is None:
+        ctx.fail(rule, 'constructors', f'{tcls.module.relpath}:{tcls.node.lineno} Tokenizer', 'Tokenizer/Parser without __init__: state fields cannot be determined',
+                 construct='mido/tokenizer.py::Tokenizer::no-init')
+        return
+    qa = queue_attrs(ctx)
+    tok_all = {a for a, _, _ in _self_stores(tinit)}
+    tok_queue = {a for a in tok_all if a in qa}
+    tok_fields = tok_all - tok_queue
+    par_fields = {a for a, _, _ in _self_stores(pinit)}
+    # retrieval must not change the assembly state: what iteration / len() can reach may not write it (the byte handlers may be
+    # reached from feed_byte by calls, bound-method values or a dispatch table - how is of no concern here)
+    retrieval = set()
+    for r in ('__iter__', '__len__', '__next__', '__bool__'):
+        if ctx.p.lookup_method(tcls, r)[1] is not None:
+            retrieval |= _closure(ctx, tcls, r)
+    retrieval -= {'__init__'}
+    forbidden_tok = {f'mido/tokenizer.py::Tokenizer.{h}' for h in retrieval}
     n = 0
     for fn in ctx.p.all_functions():
+        in_tok_cls = fn.qname.startswith('mido/tokenizer.py::Tokenizer.')
+        in_par_cls = fn.qname.startswith('mido/parser.py::Parser.')
         for t, st in astq.stores_in(fn.node):
-            if isinstance(t, ast.Attribute):
-                if t.attr in TOK_FIELDS and (fn.module.name in (TOK, PAR) or not (isinstance(t.value, ast.Name) and t.value.id == 'self')):
-                    n += 1
-                    ctx.require(fn.qname in allowed_tok, rule, f'writer({t.attr})@{fn.qname.split("::")[1]}', ctx.where(fn, st),
-                                f'tokenizer state {t.attr} is written outside the byte handlers ({unparse(st)[:60]})',
-                                construct=f'{fn.qname}::writes({t.attr})')
-                if t.attr in ('_tok', 'messages') and fn.module.name == PAR or t.attr == '_tok':
-                    n += 1
-                    ctx.require(fn.qname == 'mido/parser.py::Parser.__init__', rule, f'writer({t.attr})@{fn.qname.split("::")[1]}',
-                                ctx.where(fn, st), f'parser field {t.attr} is rebound outside __init__ ({unparse(st)[:60]})',
-                                construct=f'{fn.qname}::writes({t.attr})')
-                if t.attr == '_messages' and fn.module.name == TOK:
-                    n += 1
-                    ctx.require(fn.qname == 'mido/tokenizer.py::Tokenizer.__init__', rule, f'writer(_messages)@{fn.qname.split("::")[1]}',
-                                ctx.where(fn, st), 'token queue rebound outside __init__', construct=f'{fn.qname}::writes(_messages)')
-    ctx.floor(rule + '-writers', n, 9)
+            if not isinstance(t, ast.Attribute):
+                continue
+            on_self = isinstance(t.value, ast.Name) and t.value.id == 'self'
+            if t.attr in tok_fields and in_tok_cls and on_self:
+                n += 1
+                ctx.require(fn.qname not in forbidden_tok, rule, f'writer({t.attr})@{fn.qname.split("::")[1]}', ctx.where(fn, st),
+                            f'tokenizer state {t.attr} is written by a retrieval method ({unparse(st)[:60]}): what is parsed would depend on when messages are fetched',
+                            construct=f'{fn.qname}::writes({t.attr})')
+            elif t.attr in par_fields and in_par_cls and on_self:
+                n += 1
+                ctx.require(fn.qname == 'mido/parser.py::Parser.__init__', rule, f'writer({t.attr})@{fn.qname.split("::")[1]}',
+                            ctx.where(fn, st), f'parser field {t.attr} is rebound outside __init__ ({unparse(st)[:60]})',
+                            construct=f'{fn.qname}::writes({t.attr})')
+            elif t.attr in tok_queue and in_tok_cls and on_self:
+                n += 1
+                ctx.require(fn.qname == 'mido/tokenizer.py::Tokenizer.__init__', rule, f'writer({t.attr})@{fn.qname.split("::")[1]}',
+                            ctx.where(fn, st), 'token queue rebound outside __init__', construct=f'{fn.qname}::writes({t.attr})')
+            elif not on_self and fn.module.name in (TOK, PAR) and t.attr in (tok_fields | tok_queue) and isinstance(t.value, ast.Attribute) \
+                    and t.value.attr in par_fields:
+                # self._tok._status = ... : the parser reaching into the tokenizer
+                n += 1
+                ctx.fail(rule, f'writer({t.attr})@{fn.qname.split("::")[1]}', ctx.where(fn, st),
+                         f'tokenizer state {t.attr} is written from outside the tokenizer ({unparse(st)[:60]})', construct=f'{fn.qname}::writes({t.attr})')
+    ctx.floor(rule + '-writers', n, len(tok_all) + len(par_fields) if tok_all and par_fields else 1)
 
 
 IMPURE_BUILTINS = {'open', 'input', 'print', 'id', 'globals', 'locals', 'vars', 'exec', 'eval', '__import__', 'hash', 'setattr', 'delattr'}
